@@ -8,6 +8,7 @@ import (
 	"os"
 	"os/exec"
 	"path/filepath"
+	"strconv"
 	"strings"
 	"testing"
 	"time"
@@ -29,6 +30,7 @@ type Case struct {
 	Events []string `json:"events,omitempty"` // key events delivered after the run
 	R      int      `json:"repetitions"`
 	CLI    bool     `json:"cli,omitempty"`
+	Seed   int64    `json:"rand_seed,omitempty"` // --rand-seed of the fresh-process runs (0: 7)
 	Origin string   `json:"origin"`
 }
 
@@ -138,7 +140,11 @@ func cli(c Case) *h.Failure {
 	ctx, cancel := context.WithTimeout(context.Background(), 60*time.Second)
 	defer cancel()
 	for i := 0; i < 3; i++ {
-		cmd := exec.CommandContext(ctx, bin, "run", "--skip-sleep", "--rand-seed", "7", "--svg-out", "-", f)
+		seed := c.Seed
+		if seed == 0 {
+			seed = 7 // 0 asks for a random seed (evy run --help), every other value fixes the sequence
+		}
+		cmd := exec.CommandContext(ctx, bin, "run", "--skip-sleep", "--rand-seed="+strconv.FormatInt(seed, 10), "--svg-out", "-", f)
 		cmd.Stdin = strings.NewReader(strings.Join(c.Inputs, "\n") + "\n\n\n\n")
 		var so, se bytes.Buffer
 		cmd.Stdout, cmd.Stderr = &so, &se
@@ -160,7 +166,7 @@ func cli(c Case) *h.Failure {
 		if i == 0 {
 			first = obs
 		} else if obs != first {
-			return &h.Failure{Kind: "process-runs-differ", Detail: "fresh `evy run --rand-seed 7 --svg-out -` processes differ " + firstDiff(first, obs), Src: c.Src, Case: c}
+			return &h.Failure{Kind: "process-runs-differ", Detail: fmt.Sprintf("fresh `evy run --rand-seed=%d --svg-out -` processes differ ", seed) + firstDiff(first, obs), Src: c.Src, Case: c}
 		}
 	}
 	return nil
@@ -336,6 +342,7 @@ func TestProp(t *testing.T) {
 		}
 		if ncli < cliBudget && rapid.IntRange(0, 25).Draw(t, "cli") == 0 {
 			c.CLI = true
+			c.Seed = rapid.SampledFrom([]int64{7, 1, -1, -7, 1 << 62, -1 << 63, 2147483648, 42}).Draw(t, "randseed")
 			ncli++
 			ctx.Rec.Add("fresh_process_cases", 1)
 		}
